@@ -225,6 +225,13 @@ static struct query_state *doquery(int type, const char *name, int timeout) {
         return NULL;
     }
 
+    if (len > DNS_PACKETSIZE) {
+        /* the resolver reports the full size of an answer it had to truncate */
+        debug(DBG_ERR, "doquery: dns response of %d bytes exceeds buffer, ignoring", len);
+        querycleanup(state);
+        return NULL;
+    }
+
     if (ns_initparse(state->buf, len, &state->msg) == -1) {
         debug(DBG_ERR, "doquery: dns response parser init failed");
         querycleanup(state);
